@@ -88,14 +88,33 @@ Record nbuild := {
   nb_env : option (list (str * str));
   nb_always : bool }.
 
+(* escape_path (as in ninja's ninja_syntax.py): in the path lists of a build statement ninja splits at
+   blanks and colons; "$ " -> "$$ ", then " " -> "$ ", ":" -> "$:" — written as one pass *)
+Definition ch_dollar : ascii := "$"%char.
+Definition ch_blank : ascii := " "%char.
+Definition ch_colon : ascii := ":"%char.
+Fixpoint escape_path (p : str) : str :=
+  match p with
+  | [] => []
+  | c :: t =>
+      if Ascii.eqb c ch_blank then ch_dollar :: ch_blank :: escape_path t
+      else if Ascii.eqb c ch_colon then ch_dollar :: ch_colon :: escape_path t
+      else if Ascii.eqb c ch_dollar then
+             match t with
+             | d :: _ => if Ascii.eqb d ch_blank then ch_dollar :: ch_dollar :: escape_path t else ch_dollar :: escape_path t
+             | [] => [ch_dollar]
+             end
+      else c :: escape_path t
+  end.
+
 (* impl Display for NinjaBuild *)
 Definition cont : str := S_ " $" ++ nl ++ S_ "    ".
 Definition show_build (b : nbuild) : str :=
-  S_ "build" ++ flat_map (fun o => " "%char :: o) (nb_outs b) ++ S_ ":" ++ cont ++ nb_rule b ++
-  match nb_inputs b with Some l => flat_map (fun p => cont ++ p) l | None => [] end ++
+  S_ "build" ++ flat_map (fun o => " "%char :: escape_path o) (nb_outs b) ++ S_ ":" ++ cont ++ nb_rule b ++
+  match nb_inputs b with Some l => flat_map (fun p => cont ++ escape_path p) l | None => [] end ++
   (if match nb_deps b with Some _ => true | None => false end || nb_always b then
      cont ++ S_ "|" ++
-     match nb_deps b with Some l => flat_map (fun p => cont ++ p) l | None => [] end ++
+     match nb_deps b with Some l => flat_map (fun p => cont ++ escape_path p) l | None => [] end ++
      (if nb_always b then cont ++ S_ "ALWAYS" else [])
    else []) ++
   nl ++
